@@ -156,6 +156,11 @@ func (n *DestinationAckerNode) worker(
 					handleError(msg, cerrors.Errorf("error while fetching acks: %w", err))
 					return
 				}
+				if len(acks) == 0 {
+					// an ack response without any ack can't be matched to a message
+					handleError(msg, cerrors.New("received an empty ack response from the destination"))
+					return
+				}
 			}
 
 			ack := acks[0]
